@@ -743,7 +743,7 @@ def util_describe(ev):
 
 def check_C18(chk):
     q = chk.tier == "quick"
-    chk.rule = ("sessions = command lines {-n on/off} x {file, stdin} x {0 B, small, 0.3-1.8 MiB} x job name x user name x "
+    chk.rule = ("sessions = command lines {-n on/off} x {file, stdin} x {0 B, small, 150-400 KiB (0.3-2 MiB thorough)} x job name x user name x "
                 "option lists of 0..1 (0..2 thorough) over 7 text classes (true, false, i32 incl. +5/007/extremes, "
                 "overflowing / non-decimal, keyword, value containing '=', no '=') x extra header, crossed with printer "
                 "scripts {ready, stopped, blocking reason alone / in a set, IPP error, HTTP error} x Print-Job reply {ok, "
@@ -758,12 +758,17 @@ def check_C18(chk):
     r = mc("C18", "mc_util", "MC_Util.tla", dict(NoCheckFlag="normal", OptClasses=OPT_CLASSES, MaxOpts=1 if q else 2),
            UTIL_INV + ["Gen"], properties=["Terminates"], case_file=cases, timeout=3000)
     chk.add_mc(r, "MC_Util MaxOpts=%d" % (1 if q else 2))
+    # extension beyond the listed property: the single-exchange commands of ipputil
+    cmdcases = os.path.join(wd, "cmdcases.ndjson")
+    r = mc("C18", "mc_utilcmd", "MC_UtilCmd.tla", {}, ["OneRequest", "ExitZeroIffOk", "Gen"], properties=["Terminates"],
+           case_file=cmdcases)
+    chk.add_mc(r, "MC_UtilCmd (status, cancel-job, get-job, purge-jobs, get-all-jobs)")
     out = os.path.join(wd, "run")
-    harness("vh", ["util", "--out", out, "--seed", chk.seed, "--cases", cases, "--bin", binp,
-                   "--limit", 1400 if q else 10**9], timeout=7200)
+    harness("vh", ["util", "--out", out, "--seed", chk.seed, "--cases", cases, "--cmdcases", cmdcases, "--bin", binp,
+                   "--tier", chk.tier, "--limit", 1400 if q else 10**9], timeout=7200)
     run_sample(chk, out)
     validate_with_retries(chk, "trace_util", "Trace_Util.tla", os.path.join(out, "trace.ndjson"),
                           os.path.join(out, "trace.side.ndjson"), describe=util_describe, drop_runs=True,
-                          block=(("ustart",), ("ustart",)))
+                          block=(("ustart", "ostart"), ("ustart", "ostart")))
     chk.extra["events_validated"] = chk.traces
     chk.traces = max(0, chk.evaluations - len(chk.violations))
